@@ -10,6 +10,7 @@
 #include <stdlib.h>
 #include <string.h>
 #include <sys/time.h>
+#include <time.h>
 #include <unistd.h>
 
 extern char **environ;
@@ -129,4 +130,60 @@ mkstemp(char *tmpl)
 	fd = real(tmpl);
 	xlog("MKSTEMP %s %d\n", tmpl, fd);
 	return fd;
+}
+
+
+/* the wall clock: with $HX_CLOCK_AT=<epoch> the program starts at that second of the calendar and time passes at
+ * its usual pace from there (CLOCK_REALTIME and time() only, the monotonic clock is left alone) */
+static long
+clock_shift(void)
+{
+	static int init;
+	static long shift;
+
+	if (!init) {
+		static int (*real)(clockid_t, struct timespec*);
+		const char *at = getenv("HX_CLOCK_AT");
+		struct timespec now;
+
+		init = 1;
+		if (at != NULL && *at) {
+			real = dlsym(RTLD_NEXT, "clock_gettime");
+			if (real != NULL && real(CLOCK_REALTIME, &now) == 0) {
+				shift = strtol(at, NULL, 10) - (long)now.tv_sec;
+				xlog("CLOCK %s shift %ld\n", at, shift);
+			}
+		}
+	}
+	return shift;
+}
+
+int
+clock_gettime(clockid_t id, struct timespec *ts)
+{
+	static int (*real)(clockid_t, struct timespec*);
+	int rc;
+
+	if (real == NULL) {
+		real = dlsym(RTLD_NEXT, "clock_gettime");
+	}
+	rc = real(id, ts);
+	if (rc == 0 && id == CLOCK_REALTIME) {
+		ts->tv_sec += clock_shift();
+	}
+	return rc;
+}
+
+time_t
+time(time_t *t)
+{
+	struct timespec ts;
+
+	if (clock_gettime(CLOCK_REALTIME, &ts) < 0) {
+		return (time_t)-1;
+	}
+	if (t != NULL) {
+		*t = ts.tv_sec;
+	}
+	return ts.tv_sec;
 }
